@@ -9,20 +9,20 @@ Import ListNotations.
 Open Scope Z_scope.
 
 (* the pairs (I, a), (I, a+1), ..., (I, b-1) *)
-Definition pairs (I a b:Z) : list (Z * Z) := map (fun j => (I, j)) (seqZ a (b - a)).
+Definition lu_pairs (I a b:Z) : list (Z * Z) := map (fun j => (I, j)) (seqZ a (b - a)).
 
-Lemma pairs_nil I a : pairs I a a = [].
-Proof. unfold pairs. rewrite seqZ_nil by lia. reflexivity. Qed.
+Lemma lu_pairs_nil I a : lu_pairs I a a = [].
+Proof. unfold lu_pairs. rewrite seqZ_nil by lia. reflexivity. Qed.
 
-Lemma pairs_snoc I a b : 0 <= a <= b -> pairs I a (b + 1) = pairs I a b ++ [(I, b)].
+Lemma lu_pairs_snoc I a b : 0 <= a <= b -> lu_pairs I a (b + 1) = lu_pairs I a b ++ [(I, b)].
 Proof.
-  intros H. unfold pairs. replace (b + 1 - a) with (b - a + 1) by lia.
+  intros H. unfold lu_pairs. replace (b + 1 - a) with (b - a + 1) by lia.
   rewrite seqZ_snoc by lia. rewrite map_app. cbn [map]. do 3 f_equal. lia.
 Qed.
 
-Lemma len_pairs I a b : a <= b -> len (pairs I a b) = b - a.
+Lemma len_lu_pairs I a b : a <= b -> len (lu_pairs I a b) = b - a.
 Proof.
-  intros H. unfold pairs. unfold len at 1. rewrite map_length. fold (len (seqZ a (b - a))).
+  intros H. unfold lu_pairs. unfold len at 1. rewrite map_length. fold (len (seqZ a (b - a))).
   apply seqZ_length. lia.
 Qed.
 
@@ -38,7 +38,7 @@ Definition AbsLU (I J:Z) (sb:sub) (O:list (Z * Z)) : Prop :=
   s_inner sb = false /\
   0 <= I <= len L /\ 0 <= J <= len R /\
   exists a, 0 <= a <= J /\
-    O = rows_upto emit inv L R I ++ pairs I a J /\
+    O = rows_upto emit inv L R I ++ lu_pairs I a J /\
     (forall j' i', 0 <= j' < a -> I <= i' < len L -> nthZ R j' < nthZ L i') /\
     (a < J -> I < len L /\ J < len R /\ forall j', a <= j' <= J -> nthZ R j' = nthZ L I).
 
@@ -63,7 +63,7 @@ Lemma row_run_LU I a b : 0 <= I < len L -> 0 <= a < b -> b <= len R ->
   (forall j', 0 <= j' < a -> nthZ R j' < nthZ L I) ->
   (forall j', a <= j' < b -> nthZ R j' = nthZ L I) ->
   (forall j', b <= j' < len R -> nthZ R j' <> nthZ L I) ->
-  row emit inv R I (nthZ L I) = pairs I a b.
+  row emit inv R I (nthZ L I) = lu_pairs I a b.
 Proof.
   intros HI Hab Hb Hlt Heq Hgt.
   rewrite (row_interval emit inv R I (nthZ L I) a b); try lia; try assumption.
@@ -116,7 +116,7 @@ Proof.
     assert (Hclean : a0 = J).
     { destruct (Z.eq_dec a0 J) as [e|ne]; [exact e|]. exfalso.
       destruct (Hmid ltac:(lia)) as (_ & _ & Hrun). specialize (Hrun J ltac:(lia)). fold a b in Hrun. lia. }
-    subst a0. rewrite pairs_nil, app_nil_r in HOeq.
+    subst a0. rewrite lu_pairs_nil, app_nil_r in HOeq.
     assert (Hrow : row emit inv R I (nthZ L I) = if emit then [(I, inv)] else []).
     { apply (row_none_LU I J); try lia; try assumption. }
     destruct (Bool.bool_dec emit true) as [Ee|Ee].
@@ -130,7 +130,7 @@ Proof.
       * unfold AbsLU. simp_st. splits; try assumption; try lia.
         exists J. fold J. splits; try lia.
         -- replace (la + (fi s + 1)) with (I + 1) by (unfold I; lia).
-           rewrite rows_upto_succ by lia. rewrite HOeq, Hrow, Ee, pairs_nil, app_nil_r. reflexivity.
+           rewrite rows_upto_succ by lia. rewrite HOeq, Hrow, Ee, lu_pairs_nil, app_nil_r. reflexivity.
         -- intros j' i' Hj' Hi'. apply Hfront; unfold I, J in *; lia.
       * rewrite <- Ee. apply (OutRel_push KLU emit cs ol orr s _ O I inv HO); simp_st; try lia; try reflexivity.
         -- rewrite wf_inv. reflexivity.
@@ -146,7 +146,7 @@ Proof.
       * unfold AbsLU. simp_st. splits; try assumption; try lia.
         exists J. fold J. splits; try lia.
         -- replace (la + (fi s + 1)) with (I + 1) by (unfold I; lia).
-           rewrite rows_upto_succ by lia. rewrite HOeq, Hrow, Ee, pairs_nil, !app_nil_r. reflexivity.
+           rewrite rows_upto_succ by lia. rewrite HOeq, Hrow, Ee, lu_pairs_nil, !app_nil_r. reflexivity.
         -- intros j' i' Hj' Hi'. apply Hfront; unfold I, J in *; lia.
       * rewrite <- Ee. apply (OutRel_same KLU emit ol orr s _ O HO); reflexivity.
       * unfold kmeas. simp_st. rewrite Hinn. lia.
@@ -154,7 +154,7 @@ Proof.
     assert (Hclean : a0 = J).
     { destruct (Z.eq_dec a0 J) as [e|ne]; [exact e|]. exfalso.
       destruct (Hmid ltac:(lia)) as (_ & _ & Hrun). specialize (Hrun J ltac:(lia)). fold a b in Hrun. lia. }
-    subst a0. rewrite pairs_nil, app_nil_r in HOeq.
+    subst a0. rewrite lu_pairs_nil, app_nil_r in HOeq.
     eexists _, O. split; [reflexivity|].
     simp_st.
     splits; try lia.
@@ -163,7 +163,7 @@ Proof.
     * unfold LocLU. simp_st. intros Hx. specialize (HLoc Hx). lia.
     * unfold AbsLU. simp_st. splits; try assumption; try lia.
       exists (J + 1). replace (ra + (fj s + 1)) with (J + 1) by (unfold J; lia). fold I. splits; try lia.
-      -- rewrite pairs_nil, app_nil_r. exact HOeq.
+      -- rewrite lu_pairs_nil, app_nil_r. exact HOeq.
       -- intros j' i' Hj' Hi'.
          destruct (Z.eq_dec j' J) as [->|Hne].
          ++ fold b. pose proof (sortedL_LU I i' ltac:(lia) ltac:(lia) ltac:(lia)) as H. fold a in H. lia.
@@ -212,7 +212,7 @@ Proof.
          exists (J + 1). replace (la + (fi s + 1)) with (I + 1) by (unfold I; lia). splits; try lia.
          ++ rewrite rows_upto_succ by lia.
             rewrite (row_run_LU I a0 (J + 1)); try lia; try assumption.
-            ** rewrite HOeq, pairs_nil, app_nil_r, pairs_snoc by lia. rewrite app_assoc. reflexivity.
+            ** rewrite HOeq, lu_pairs_nil, app_nil_r, lu_pairs_snoc by lia. rewrite app_assoc. reflexivity.
             ** intros j' Hj'. apply Hrun. lia.
             ** apply Hadv1. reflexivity.
          ++ intros j' i' Hj' Hi'.
@@ -224,7 +224,7 @@ Proof.
       -- (* still inside the run of key L[I] *)
          destruct (Hadv0 eq_refl) as (Hj1 & Hj2 & Hnext).
          exists a0. fold I. splits; try lia.
-         ++ rewrite HOeq, pairs_snoc by lia. rewrite app_assoc. reflexivity.
+         ++ rewrite HOeq, lu_pairs_snoc by lia. rewrite app_assoc. reflexivity.
          ++ exact Hfront.
          ++ intros _. splits; try lia. intros j' Hj'.
             destruct (Z.eq_dec j' (J + 1)) as [->|Hne]; [exact Hnext|]. apply Hrun. lia.
@@ -240,7 +240,7 @@ Lemma Abs_final_LU : forall I J sb O, AbsLU I J sb O -> s_inner sb = false ->
 Proof.
   intros I J sb O (_ & _ & _ & a0 & Ha0 & HO & Hfront & Hmid) _ HI HJ Hend.
   assert (a0 = J) by (destruct (Z.eq_dec a0 J) as [e|ne]; [exact e|]; destruct (Hmid ltac:(lia)); lia).
-  subst a0. rewrite pairs_nil, app_nil_r in HO. subst O.
+  subst a0. rewrite lu_pairs_nil, app_nil_r in HO. subst O.
   symmetry. apply rows_unmatched_tail; [lia|].
   intros i Hi. destruct Hend as [He|He]; [lia|].
   apply matches_from_none. intros j Hj. specialize (Hfront j i ltac:(lia) ltac:(lia)). lia.
@@ -250,7 +250,7 @@ Lemma Abs_len_LU : forall I J sb O, AbsLU I J sb O -> 0 <= I <= len L -> 0 <= J 
   len O <= len L * len R + len L + len R.
 Proof.
   intros I J sb O (_ & _ & _ & a0 & Ha0 & HO & _ & Hmid) HI HJ. subst O.
-  rewrite len_app, len_pairs by lia.
+  rewrite len_app, len_lu_pairs by lia.
   pose proof (len_rows_upto emit inv L R I HI) as H1. pose proof (len_nonneg R) as H2.
   destruct (Z.eq_dec a0 J) as [e|ne]; [nia|].
   destruct (Hmid ltac:(lia)) as (H3 & H4 & _). nia.
